@@ -159,10 +159,17 @@ func (h *handler) OnOpen(c gnet.Conn) (out []byte, action gnet.Action) {
 		for i := range out {
 			out[i] = payloadOut(id, i)
 		}
-		// the reply takes effect when OnOpen returns; it is accepted unless the write fails
-		cs.W = append(cs.W, wEntry{id, n})
-		cs.wBytes += n
-		w.logf("conn %d open-reply op=%d n=%d", cs.idx, id, n)
+		// the reply takes effect when OnOpen returns; it is accepted unless the write fails.
+		// A connection that was closed inside OnOpen (a failing write of the script) has no
+		// stream left for it: nothing of the reply may reach the peer.
+		if cs.closed {
+			w.probes["open-reply-on-closed-conn"]++
+			w.logf("conn %d open-reply op=%d n=%d dropped: closed inside OnOpen", cs.idx, id, n)
+		} else {
+			cs.W = append(cs.W, wEntry{id, n})
+			cs.wBytes += n
+			w.logf("conn %d open-reply op=%d n=%d", cs.idx, id, n)
+		}
 	}
 	action = gnet.Action(cs.cp.OpenAct)
 	w.noteAction(cs, action)
